@@ -49,7 +49,9 @@ def ns_config(draw, tier: str, kinds=None, n_min_fn=None, widths=(0, 1, 2, 3, 4)
     kind = draw(st.sampled_from(list(kinds or SIM_KINDS)))
     dim = sim_dim(kind)
     cfg = {"sim": kind, "dtype": draw(gen.precisions), "threads": SIM_THREADS}
-    cfg["nu"] = draw(gen.log_uniform(1e-4, 1.0))
+    # inviscid runs (kinematic_viscosity = 0, e.g. the Hill-vortex example) are admissible: the prefactor of every diffusion
+    # kernel is then exactly zero
+    cfg["nu"] = draw(st.one_of(gen.log_uniform(1e-4, 1.0), gen.log_uniform(1e-4, 1.0), gen.log_uniform(1e-4, 1.0), st.just(0.0)))
     cfg["time0"] = draw(st.sampled_from([0.0, 0.0, 1.5, 1234.5678]))
     if kind.startswith("ns"):
         cfg["with_forcing"] = draw(st.booleans())
@@ -115,7 +117,7 @@ def primary_field_of(sim, cfg):
 
 
 def config_labels(cfg):
-    labs = [cfg["sim"], cfg["dtype"], f"width{cfg['width']}"]
+    labs = [cfg["sim"], cfg["dtype"], f"width{cfg['width']}"] + (["inviscid_nu0"] if cfg["nu"] == 0.0 else [])
     if cfg["sim"].startswith("ns"):
         labs.append("forcing_on" if cfg["with_forcing"] else "forcing_off")
         labs.append("free_stream_on" if cfg["with_free_stream"] else "free_stream_off")
@@ -134,4 +136,17 @@ def config_labels(cfg):
 def stable_dt(cfg, dx, umax, frac):
     """dt = frac * min(CFL-1 advective step, diffusion-limit step)."""
     dim = sim_dim(cfg["sim"])
-    return float(frac) * min(dx / max(umax, 1e-30), dx * dx / (2 * dim * cfg["nu"]))
+    return float(frac) * min(dx / max(umax, 1e-30), dx * dx / (2 * dim * max(cfg["nu"], 1e-30)))
+
+
+def choose_dt(sim, cfg, dx, umax, frac, from_sim: bool):
+    """dt for one step.  from_sim: ask the simulator itself (dt = sim.compute_stable_timestep(frac), what every example does
+    right before time_step), so that the side effects of that public query on the simulator's scratch arrays are part of the
+    history; falls back to the harness' own value when the simulator's limit is far larger (zero velocity and viscosity)."""
+    own = stable_dt(cfg, dx, umax, frac)
+    if not from_sim:
+        return own
+    d = float(sim.compute_stable_timestep(dt_prefac=float(frac)))
+    if np.isfinite(d) and 0.0 < d <= 4.0 * stable_dt(cfg, dx, umax, 1.0) * max(float(frac), 1e-3):
+        return d
+    return own
